@@ -276,6 +276,8 @@ def run_edits(ctx, case):
     import numpy as np
 
     spec, hints = case["spec"], case.get("hints")
+    if hints:
+        hints = dict(hints, seq="list")     # this sub-check edits the block's containers in place: they have to be lists
     t = spec["t"]
     ok, blk = ctx.must(lambda: specs.build(spec, hints), f"{t}/build", f"constructing a valid {t} block")
     done = 0
